@@ -77,4 +77,49 @@ example : findall false (parseNode exDoc) (s "a[*]") =
     .ok (some [([s "a[0]"], .text (some (s "x"))), ([s "a[1]"], .text (some (s "z")))]) := by decide +kernel
 example : findall false (parseNode exDoc) (s "../a") = .ok none := by decide +kernel
 
+/-- **C18 (conditions).**  For an expression made of plain steps — a name or `*`, an optional
+`[i]`/`[*]`, an optional `[text() op v]` — `findall` returns exactly what the sibling-filter
+semantics `selP` prescribes: at every step, in document order, exactly the siblings whose tag
+matches (`tagTest`, see `C18_tagTest_plain`), whose per-tag index (`countTag`: number of earlier
+siblings with the same tag) passes `idxOk` and whose value passes `condHolds`; nothing else, nothing
+twice.  Unbounded in the number of steps and in the document. -/
+theorem C18_conditions_exact (root : XVal) (ss : List Str) (sts : List Step)
+    (h : AllSimple ss sts) : findallL false root ss = .ok (some (selP sts [] root)) :=
+  findallL_simple root ss sts h
+
+/-- for a plain step the tag test is: same tag, or the step is `*` -/
+theorem C18_tagTest_plain (st : Step) (h : st.tag ≠ star2) (t : Str) :
+    tagTest st t 0 = (t == st.tag || st.tag == star) := tagTest_simple st h t
+
+/-- one step spelled out: the hits of `findall([step])` on the sibling list `items` -/
+theorem C18_conditions_exact_one (items : List Item) (step : Str) (st : Step) (h : Simple step st) :
+    findallL false (.nodes items) [step] =
+      .ok (some (selG st 0 (fun p v => [(p, v)]) [] [] items)) := by
+  have := findallL_simple (.nodes items) [step] [st] (.cons h .nil)
+  simpa [selP] using this
+
+example : AllSimple [s "a[1]", s "*[text()!=none]"]
+    [⟨s "a", some (some 1), none⟩, ⟨s "*", none, some (s "!=", s "none")⟩] := by
+  refine .cons ⟨by decide +kernel, by decide, by decide⟩ (.cons ⟨by decide +kernel, by decide, by decide⟩ .nil)
+example : findallL false (parseNode exDoc) [s "a[text()!=x]"] =
+    .ok (some [([s "a[1]"], .text (some (s "z")))]) := by decide +kernel
+example : findallL false (parseNode exDoc) [s "*", s "a[0]"] =
+    .ok (some [([s "b", s "a"], .text (some (s "1")))]) := by decide +kernel
+
+/-- **C18 (`**`).**  `findall('**')` returns every leaf (every value that is not a list of
+subnodes, i.e. the text of every element without children) exactly once, in document order, each
+with its positional path; nothing for a document without elements (fix C18-b). -/
+theorem C18_deep_wildcard (root : XVal) :
+    findallL false root [star2] = .ok (some (leavesV [] root)) := findallL_deep root
+
+theorem C18_deep_wildcard_str (e : Elem) :
+    findall false (parseNode e) (s "**") = .ok (some (leavesV [] (parseNode e))) := by
+  have : xpSteps (s "**") = [star2] := by decide +kernel
+  simp [findall, this, findallL_deep]
+
+example : leavesV [] (parseNode exDoc) =
+    [([s "a"], .text (some (s "x"))), ([s "b", s "a"], .text (some (s "1"))),
+     ([s "b", s "c"], .text none), ([s "a[1]"], .text (some (s "z")))] := by decide +kernel
+example : findall false (parseNode (.mk (s "r") none [] [])) (s "**") = .ok (some []) := by decide +kernel
+
 end N0.C18
